@@ -6,6 +6,7 @@ import (
 	"encoding/binary"
 	"errors"
 	"io"
+	"math"
 	"sync"
 	"sync/atomic"
 
@@ -44,8 +45,14 @@ func New(ctx context.Context, getter storage.Getter, getMode storage.ModeGet, ad
 	}
 
 	var chunkData = rootChunk.Data()
+	if len(chunkData) < boson.SpanSize {
+		return nil, 0, ErrMalformedTrie
+	}
 
 	span := int64(binary.LittleEndian.Uint64(chunkData[:boson.SpanSize]))
+	if err := checkRefs(chunkData[boson.SpanSize:], span, len(address.Bytes())); err != nil {
+		return nil, 0, err
+	}
 
 	j := &joiner{
 		addr:      rootChunk.Address(),
@@ -118,6 +125,9 @@ func (j *joiner) readAtOffset(b, data []byte, cur, subTrieSize, off, bufferOffse
 	// we are at a leaf data chunk
 	if subTrieSize <= int64(len(data)) {
 		dataOffsetStart := off - cur
+		if dataOffsetStart < 0 || dataOffsetStart > int64(len(data)) {
+			return // the chunk is shorter than its parent announced
+		}
 		dataOffsetEnd := dataOffsetStart + bytesToRead
 
 		if lenDataToCopy := int64(len(data)) - dataOffsetStart; bytesToRead > lenDataToCopy {
@@ -165,11 +175,17 @@ func (j *joiner) readAtOffset(b, data []byte, cur, subTrieSize, off, bufferOffse
 					return err
 				}
 
+				if len(ch.Data()) < boson.SpanSize {
+					return ErrMalformedTrie
+				}
 				chunkData := ch.Data()[8:]
 				subtrieSpan := int64(chunkToSpan(ch.Data()))
 
 				if subtrieSpan > subtrieSpanLimit {
 					return ErrMalformedTrie
+				}
+				if err := checkRefs(chunkData, subtrieSpan, j.refLength); err != nil {
+					return err
 				}
 
 				j.readAtOffset(b, chunkData, cur, subtrieSpan, off, bufferOffset, currentReadSize, bytesRead, eg)
@@ -200,8 +216,8 @@ func subtrieSection(data []byte, startIdx, refLen int, subtrieSize int64) int64 
 	)
 	for {
 		whatsLeft := subtrieSize - (branchSize * (refs - 1))
-		if whatsLeft <= branchSize {
-			break
+		if whatsLeft <= branchSize || branchSize > math.MaxInt64/branching {
+			break // (second clause: span too large for the number of references; no overflow)
 		}
 		branchSize *= branching
 	}
@@ -299,8 +315,14 @@ func (j *joiner) processChunkAddresses(ctx context.Context, fn boson.AddressIter
 					return err
 				}
 
+				if len(ch.Data()) < boson.SpanSize {
+					return ErrMalformedTrie
+				}
 				chunkData := ch.Data()[8:]
 				subtrieSpan := int64(chunkToSpan(ch.Data()))
+				if err := checkRefs(chunkData, subtrieSpan, j.refLength); err != nil {
+					return err
+				}
 
 				if j.allowSaveEdge && subtrieSpan > int64(len(chunkData)) {
 					j.edgeChunks[address.String()] = ch.Data()
@@ -314,6 +336,18 @@ func (j *joiner) processChunkAddresses(ctx context.Context, fn boson.AddressIter
 	}
 
 	return eg.Wait()
+}
+
+// checkRefs rejects an intermediate chunk (span larger than its data) whose data is not a
+// non-empty whole number of references.
+func checkRefs(data []byte, span int64, refLen int) error {
+	if span <= int64(len(data)) {
+		return nil // leaf
+	}
+	if refLen <= 0 || len(data) < refLen || len(data)%refLen != 0 {
+		return ErrMalformedTrie
+	}
+	return nil
 }
 
 func (j *joiner) Size() int64 {
